@@ -3,6 +3,7 @@ package scen
 import (
 	"encoding/json"
 	"fmt"
+	"os"
 	"path/filepath"
 	"sort"
 	"strings"
@@ -509,7 +510,16 @@ func diffObs(a, b *obs) string {
 func converge(r *core.Run, reconfigure bool) {
 	src := r.Src
 	drawMapOrder(r)
-	e := newEnv(r, sched.Config{SwitchDen: []int{1, 1, 2, 4}[src.Intn(4)]}, memfs.Cred{})
+	// scale: one run in thirty starts with a crowded directory (150-250 Spec
+	// files) that the history removes as a tree and recreates: a burst of
+	// events far beyond what any fixed-size queue of a handful of entries holds
+	crowded := !reconfigure && (src.Bool(1, 30) || os.Getenv("VERIF_FORCE_CROWDED") != "")
+	maxSteps := 0
+	if crowded {
+		maxSteps = 1500000
+		r.Knob("crowded_directory", true)
+	}
+	e := newEnv(r, sched.Config{SwitchDen: []int{1, 1, 2, 4}[src.Intn(4)], MaxSteps: maxSteps}, memfs.Cred{})
 	c := &cv{env: e}
 	c.mut = e.w.NewProc("admin", memfs.Cred{})
 	// event loss: sometimes the inotify queue is short (fs.inotify.max_queued_events),
@@ -547,6 +557,21 @@ func converge(r *core.Run, reconfigure bool) {
 			}
 		}
 	}
+	crowdedDir := ""
+	if crowded {
+		crowdedDir = c.dirs[src.Intn(len(c.dirs))]
+		e.admin.MkdirAll(crowdedDir, 0o755)
+		pl.dirs[crowdedDir] = true
+		n := 150 + src.Intn(101)
+		for i := 0; i < n; i++ {
+			name := fmt.Sprintf("c%03d%s", i, []string{".json", ".yaml"}[i%2])
+			m := c.reg.Valid(src, i%2 == 0, gen.Opts{Vendors: []string{fmt.Sprintf("v%03d.org", i)}})
+			e.admin.WriteFile(crowdedDir+"/"+name, m.Content, 0o644)
+			pl.files[crowdedDir+"/"+name] = true
+		}
+		r.Notef("crowded: %d Spec files in %s", n, crowdedDir)
+		r.Probe("crowded_directory_burst")
+	}
 	r.Notef("dirs %v (present: %v)", c.dirs, sortedKeys(pl.dirs))
 	given := uncleanDirs(src, c.dirs)
 	if fmt.Sprint(given) != fmt.Sprint(c.dirs) {
@@ -567,11 +592,46 @@ func converge(r *core.Run, reconfigure bool) {
 		nmut = 3
 	}
 	progs := make([][]mutOp, nmut)
+	if crowded {
+		nops = 1 + src.Intn(3) // the burst is the point; every event costs a scan of the crowded directory
+	}
 	for i := 0; i < nops; i++ {
 		op := c.genOp(pl)
 		k := src.Intn(nmut)
 		progs[k] = append(progs[k], op)
 		r.Notef("mutator%d: %s", k, op.desc)
+	}
+	if crowded {
+		// the tree goes away in one go and comes back with one file
+		d := crowdedDir
+		name := specNames[src.Intn(len(specNames))]
+		m := c.content(name)
+		for f := range pl.files {
+			if filepath.Dir(f) == d {
+				delete(pl.files, f)
+			}
+		}
+		pl.files[d+"/"+name] = true
+		pl.dirs[d] = true
+		k := src.Intn(nmut)
+		progs[k] = append(progs[k], mutOp{fmt.Sprintf("rm -r %s (crowded); mkdir %s; write %s = %s", d, d, name, m), func() {
+			simos.RemoveAll(d)
+			if simos.MkdirAll(d, 0o755) == nil {
+				simos.WriteFile(d+"/"+name, m.Content, 0o644)
+			}
+		}})
+		r.Notef("mutator%d: rm -r %s (crowded); mkdir; write %s = %s", k, d, name, m)
+		// ... and a change in the recreated directory some time later: whether it
+		// is still (or again) watched only shows then
+		late := c.content("late.json")
+		pl.files[d+"/late.json"] = true
+		progs[k] = append(progs[k], mutOp{fmt.Sprintf("create %s/late.json = %s", d, late), func() {
+			for i := 0; i < 40; i++ {
+				e.w.Yield(&sched.Op{Kind: "idle", Path: ""})
+			}
+			simos.WriteFile(d+"/late.json", late.Content, 0o644)
+		}})
+		r.Notef("mutator%d: (later) create %s/late.json = %s", k, d, late)
 	}
 	src.End()
 	var tasks []*sched.Task
